@@ -400,7 +400,9 @@ pub fn run_history(out: &mut Out, prop: &str, stream: &str, rng: &mut Rng, mix: 
 }
 
 pub fn parse_replay(path: &str) -> Option<(bool, (u128, u128, u128), [u128; 5], Vec<Op>)> {
-    let v: serde_json::Value = serde_json::from_str(&std::fs::read_to_string(path).ok()?).ok()?;
+    // ./check runs the harness from harness/: accept paths relative to the framework root as well
+    let text = std::fs::read_to_string(path).or_else(|_| std::fs::read_to_string(format!("../{}", path))).ok()?;
+    let v: serde_json::Value = serde_json::from_str(&text).ok()?;
     let f = v.get("failing_input").unwrap_or(&v);
     let cw20 = f.get("asset")?.as_str()? == "cw20";
     let fe: Vec<u128> = f.get("fees_protocol_flash_burn")?.as_array()?.iter().filter_map(|x| x.as_str()?.parse().ok()).collect();
